@@ -2,7 +2,8 @@ import PolyVerif.Model.Transform
 /-
 Model of poly/clone: Overhang, Fragment, Enzyme, getBaseRestrictionEnzymes,
 CutWithEnzymeByName and CutWithEnzyme, statement by statement, as the code is after the
-commit "CutWithEnzyme yields the same fragments whichever base a circular sequence starts at".
+commits "CutWithEnzyme yields the same fragments whichever base a circular sequence starts at" and
+"a reverse site at the very end of a linear part no longer loses its fragment".
 
 * Strings are `List Char` (ASCII); positions are `Int` because a reverse overhang position
   `match_start - skip` can be negative.
@@ -70,8 +71,9 @@ def findAll (pat s : Str) : List (Nat × Nat) := findAllAux pat 0 0 s
 def goSlice (s : Str) (lo hi : Int) : Option Str :=
   if 0 ≤ lo ∧ lo ≤ hi ∧ hi ≤ (s.length : Int) then some ((s.drop lo.toNat).take (hi.toNat - lo.toNat)) else none
 
-/-- the end-trimming rule: on a LINEAR sequence the LAST overhang of a set is removed when
-`Position + Skip + OverhangLen > len(sequence)` -/
+/-- the end-trimming rule: on a LINEAR sequence the LAST overhang of the FORWARD set is removed when
+`Position + Skip + OverhangLen > len(sequence)` (the reverse set is left alone: the overhang of a
+reverse site lies to the left of that site) -/
 def trimLast (circular : Bool) (e : Enzyme) (seqLen : Nat) (set : List Overhang) : List Overhang :=
   match set.getLast? with
   | none => set
@@ -134,7 +136,8 @@ def overhangsCore (sequence : Str) (n : Nat) (circular : Bool) (e : Enzyme) : Op
   let reverseOverhangs : List Overhang :=
     if palindromic then [] else
     (findAll e.reRev sequence).map fun m => ⟨e.ohLen, (m.1 : Int) - e.skip, false⟩
-  let overhangs := trimLast circular e sequence.length forwardOverhangs ++ trimLast circular e sequence.length reverseOverhangs
+  -- `for setIndex, overhangSet := range {forwardOverhangs, reverseOverhangs}`: the rule is applied when `setIndex == 0` only
+  let overhangs := trimLast circular e sequence.length forwardOverhangs ++ reverseOverhangs
   if circular && n == 0 && !overhangs.isEmpty then none else   -- `% 0`
   let overhangs :=
     if circular then dedupInto [] (overhangs.map fun o => { o with position := firstTurn n o.position })
